@@ -193,3 +193,129 @@ impl ByteSeq {
         ensures r == self@.len(),
     { unimplemented!() }
 }
+
+// ==== additions for the codec units (C13) — additive only; nothing above this line is changed =========================
+// `Bytes`/`BytesMut` deref to `[u8]`, so the codecs index them directly: `bytes[i]`, `bytes[a..b]`, `bytes[a..]`,
+// `bytes[..b]`. Out-of-range indexing panics in Rust; here it is the precondition `index_req` (checked at every site).
+// A range index yields a plain `[u8]` whose view is the sub-sequence.
+impl vstd::std_specs::core::IndexSpecImpl<usize> for ByteSeq {
+    open spec fn index_req(&self, i: &usize) -> bool { *i < self@.len() }
+}
+impl core::ops::Index<usize> for ByteSeq {
+    type Output = u8;
+    #[verifier::external_body]
+    fn index(&self, i: usize) -> (r: &u8)
+        ensures *r == self@[i as int],
+    { unimplemented!() }
+}
+impl vstd::std_specs::core::IndexSpecImpl<core::ops::Range<usize>> for ByteSeq {
+    open spec fn index_req(&self, i: &core::ops::Range<usize>) -> bool { i.start <= i.end && i.end <= self@.len() }
+}
+impl core::ops::Index<core::ops::Range<usize>> for ByteSeq {
+    type Output = [u8];
+    #[verifier::external_body]
+    fn index(&self, i: core::ops::Range<usize>) -> (r: &[u8])
+        ensures r@ == self@.subrange(i.start as int, i.end as int),
+    { unimplemented!() }
+}
+impl vstd::std_specs::core::IndexSpecImpl<core::ops::RangeFrom<usize>> for ByteSeq {
+    open spec fn index_req(&self, i: &core::ops::RangeFrom<usize>) -> bool { i.start <= self@.len() }
+}
+impl core::ops::Index<core::ops::RangeFrom<usize>> for ByteSeq {
+    type Output = [u8];
+    #[verifier::external_body]
+    fn index(&self, i: core::ops::RangeFrom<usize>) -> (r: &[u8])
+        ensures r@ == self@.subrange(i.start as int, self@.len() as int),
+    { unimplemented!() }
+}
+impl vstd::std_specs::core::IndexSpecImpl<core::ops::RangeTo<usize>> for ByteSeq {
+    open spec fn index_req(&self, i: &core::ops::RangeTo<usize>) -> bool { i.end <= self@.len() }
+}
+impl core::ops::Index<core::ops::RangeTo<usize>> for ByteSeq {
+    type Output = [u8];
+    #[verifier::external_body]
+    fn index(&self, i: core::ops::RangeTo<usize>) -> (r: &[u8])
+        ensures r@ == self@.subrange(0, i.end as int),
+    { unimplemented!() }
+}
+
+// <[T]>::to_vec: an element-wise clone (A-std)
+pub assume_specification<T: Clone> [<[T]>::to_vec] (s: &[T]) -> (r: Vec<T>)
+    ensures r@.len() == s@.len(), forall|i: int| 0 <= i < s@.len() ==> cloned::<T>(#[trigger] s@[i], r@[i]);
+
+impl ByteSeq {
+    // Bytes::to_vec (through Deref<[u8]>): a copy of the content
+    #[verifier::external_body]
+    pub fn to_vec(&self) -> (r: Vec<u8>)
+        ensures r@ == self@,
+    { unimplemented!() }
+
+    #[verifier::external_body]
+    pub fn extend_from_slice<T: ByteSource>(&mut self, src: T)
+        ensures final(self)@ == old(self)@ + src.bytes(),
+    { unimplemented!() }
+}
+
+// `uN::from_le_bytes(SLICE.try_into().map_err(F)?)`: Verus cannot name the std items involved (the array length of
+// `from_le_bytes` is an anonymous constant, `TryInto` is a blanket impl). R4 instances map the two CALL TARGETS to the
+// stand-ins below and keep everything else (slice expression with its indices, `.map_err(F)`, `?`) verbatim:
+//   `SLICE.try_into()`        -> `slice_try_into(&SLICE)`   <&[u8] as TryInto<[u8; N]>>: Ok(copy) iff the length is N
+//   `uN::from_le_bytes(`      -> `uN_from_le_bytes(`        little-endian value of the array
+pub struct TryFromSliceError { pub p: u8 }
+#[verifier::external_body]
+pub fn slice_try_into<const N: usize>(s: &[u8]) -> (r: Result<[u8; N], TryFromSliceError>)
+    ensures
+        s@.len() == N ==> (r matches Ok(a) && a@ == s@),
+        s@.len() != N ==> r is Err,
+{ unimplemented!() }
+
+pub open spec fn un_le128(s: Seq<u8>) -> u128 { vstd::bytes::spec_u128_from_le_bytes(s) }
+
+#[verifier::external_body]
+pub fn u16_from_le_bytes(a: [u8; 2]) -> (r: u16)
+    ensures r == un_le16(a@),
+{ unimplemented!() }
+#[verifier::external_body]
+pub fn u32_from_le_bytes(a: [u8; 4]) -> (r: u32)
+    ensures r == un_le32(a@),
+{ unimplemented!() }
+#[verifier::external_body]
+pub fn u64_from_le_bytes(a: [u8; 8]) -> (r: u64)
+    ensures r == un_le64(a@),
+{ unimplemented!() }
+#[verifier::external_body]
+pub fn u128_from_le_bytes(a: [u8; 16]) -> (r: u128)
+    ensures r == un_le128(a@),
+{ unimplemented!() }
+
+// `x.to_le_bytes().to_vec()` (R4 instance `uN_le_vec(x)`): the little-endian bytes as a Vec
+#[verifier::external_body]
+pub fn u32_le_vec(x: u32) -> (r: Vec<u8>)
+    ensures r@ == le32(x),
+{ unimplemented!() }
+#[verifier::external_body]
+pub fn u64_le_vec(x: u64) -> (r: Vec<u8>)
+    ensures r@ == le64(x),
+{ unimplemented!() }
+
+// u128 round trip (proved from vstd::bytes, nothing assumed)
+pub proof fn lemma_le128_facts()
+    ensures
+        forall|x: u128| #![trigger le128(x)] le128(x).len() == 16 && un_le128(le128(x)) == x,
+        forall|s: Seq<u8>| #![trigger un_le128(s)] s.len() == 16 ==> le128(un_le128(s)) == s,
+{
+    vstd::bytes::lemma_auto_spec_u128_to_from_le_bytes();
+}
+
+// sequence algebra used by every codec proof: splitting a concatenation
+pub proof fn lemma_cat_index<A>(a: Seq<A>, b: Seq<A>)
+    ensures
+        (a + b).len() == a.len() + b.len(),
+        forall|i: int| 0 <= i < a.len() ==> (a + b)[i] == a[i],
+        forall|i: int| a.len() <= i < a.len() + b.len() ==> (a + b)[i] == b[i - a.len()],
+        (a + b).subrange(0, a.len() as int) == a,
+        (a + b).subrange(a.len() as int, (a + b).len() as int) == b,
+{
+    assert((a + b).subrange(0, a.len() as int) =~= a);
+    assert((a + b).subrange(a.len() as int, (a + b).len() as int) =~= b);
+}
